@@ -66,6 +66,13 @@ func genGuidedHistory(t *rapid.T, a *app.App, maxLen int, persisted bool) []BS {
 	n := rapid.IntRange(1, maxLen).Draw(t, "histlen")
 	for i := 0; i < n; i++ {
 		if st.Bail != "" || st.ExecErr || (!st.Cont && !persisted) {
+			// the reference stops here (a corner it does not predict, or the end); the
+			// checks that need no prediction go on: a few unguided inputs
+			if st.Bail != "" && persisted {
+				for k := uniformN(t, 6, "aftermath"); k > 0; k-- {
+					out = append(out, BS(append([]string{"", "0"}, all...)[uniformN(t, len(all)+2, "aftermathsel")]))
+				}
+			}
 			break
 		}
 		var offered []string
